@@ -6,7 +6,7 @@
 From Coq Require Import ZArith List Bool.
 From RP Require Sched.Model Sched.NodeMap Sched.Inv Sched.SchedProofs Sched.RunProofs
                Sched.LiveProofs Sched.CancelProofs Sched.ConsProofs Sched.CancelRunProofs.
-From RP Require Exec.Model Exec.Oracle Exec.Local Exec.Proj Exec.Proofs Exec.CancelProofs.
+From RP Require Exec.Model Exec.Oracle Exec.Local Exec.Proj Exec.Proofs Exec.CancelProofs Exec.ExamProofs.
 Import ListNotations.
 
 Module SchedSide.
@@ -140,7 +140,7 @@ Proof. vm_compute. split; reflexivity. Qed.
 End SchedSide.
 
 Module ExecSide.
-Import RP.Exec.Model RP.Exec.Oracle RP.Exec.Local RP.Exec.Proj RP.Exec.Proofs RP.Exec.CancelProofs.
+Import RP.Exec.Model RP.Exec.Oracle RP.Exec.Local RP.Exec.Proj RP.Exec.Proofs RP.Exec.CancelProofs RP.Exec.ExamProofs.
 
 (* a named task that is running: once cancel_task has found its process running
    and taken it over, it is never collected and never failed; at quiescence it
@@ -198,5 +198,29 @@ Theorem C08_bystander_same_outcome :
     outcome u (emissions tr1) = outcome u (emissions tr2).
 Proof. exact bystander_same_outcome. Qed.
 Print Assumptions C08_bystander_same_outcome.
+
+(* a named task cannot slip through between the registration of the request
+   and its launch: for every schedule, at quiescence, a named task that the
+   executor launched (far enough to reach the late check of _launch_task) has
+   been examined for cancellation AFTER it entered self._tasks -- the cancel
+   handler looked it up there (and then either found it and ran cancel_task,
+   which kills the process unless it has exited by then, or found it already
+   finished), or the late check found the uid on the cancel list and called
+   cancel_task.  gex_of reads this off the recorded actions; G3 = "the late
+   check missed the task and nothing has examined it since".  This is the
+   order `register the uids, then control_cb` of BaseComponent._control_cb. *)
+Theorem C08_named_launched_is_examined :
+  forall sc sched s tr u,
+    NoDup (delivered sc) -> In u (delivered sc) -> In u (named sc) ->
+    run (init sc) sched = (s, tr) -> quiescent s = true -> gex_of u tr <> G3.
+Proof. exact named_examined. Qed.
+Print Assumptions C08_named_launched_is_examined.
+
+(* ... as the oracle clause evaluated on the traces of the real code *)
+Theorem C08_named_examined_clause_holds_in_model :
+  forall sc sched s tr,
+    NoDup (delivered sc) -> run (init sc) sched = (s, tr) -> ok_named_examined sc tr (quiescent s) = true.
+Proof. exact model_named_examined. Qed.
+Print Assumptions C08_named_examined_clause_holds_in_model.
 
 End ExecSide.
